@@ -800,7 +800,42 @@ pub fn c12_state(ctx: &Ctx, p: &Pos, l: &mut Local) {
     }
 }
 
+/// Validation of the reference SAN writer against text that comes from neither code base:
+/// every move token of the first plies of every game in the book corpus must be one of
+/// the spellings the writer produces for the move it denotes.
+fn validate_san_writer(ctx: &Ctx) {
+    let mut files: Vec<_> = match std::fs::read_dir("/repo/book") {
+        Ok(d) => d.filter_map(|e| e.ok()).map(|e| e.path()).collect(),
+        Err(_) => return,
+    };
+    files.sort();
+    let (mut tokens, mut bad) = (0u64, Vec::new());
+    for f in files.iter().step_by(if ctx.quick() { 6 } else { 1 }) {
+        let Ok(text) = std::fs::read_to_string(f) else { continue };
+        for g in oracle::pgn::read_games(&text) {
+            if g.tags.iter().any(|(k, _)| k == "FEN") {
+                continue;
+            }
+            let mut p = Pos::startpos();
+            for tok in g.moves.iter().take(if ctx.quick() { 30 } else { 80 }) {
+                let Ok((m, n)) = oracle::san::read_san(&p, tok) else { break };
+                let legal = p.legal();
+                let spell = all_spellings(&m, &n, &legal);
+                let t = tok.trim_end_matches(|c| c == '!' || c == '?');
+                tokens += 1;
+                if !spell.iter().any(|s| s == t) && bad.len() < 5 {
+                    bad.push(format!("{} in {} (writer: {:?})", tok, p.fen(), spell));
+                }
+                p = n;
+            }
+        }
+    }
+    assert!(bad.is_empty(), "reference SAN writer disagrees with the PGN corpus: {:?}", bad);
+    ctx.set_extra("oracle_validation", json!({"san_writer": "every move token of the sampled PGN corpus is one of the writer's spellings for the move it denotes", "tokens": tokens}));
+}
+
 pub fn run_c12(ctx: &Ctx) -> i32 {
+    validate_san_writer(ctx);
     let cfg = SpaceCfg {
         stride: if ctx.quick() { 3 } else { 1 },
         with_f4: true,
